@@ -232,7 +232,8 @@ def records_for(system, sol, solver, accept_events, dt, energy_applies, tag, bas
                 rec = {"id": len(recs) + tag, "scheme": scheme, "closed": is_closed, "gap": gs, "xi": xs, "PN": ps,
                        "PN1": "zero", "hasF": False, "fric": "inside", "slip": False, "opposes": True,
                        "energyApplies": bool(energy_applies), "keUp": bool(ke_up), "borderline": False,
-                       "_info": {"step": k, "contact": c.name, "gap": float(gap[iN]), "xi_N": float(xiN[iN]), "P_N": float(PN[k][iN])}}
+                       "_info": {"step": k, "contact": c.name, "gap": float(gap[iN]), "xi_N": float(xiN[iN]), "P_N": float(PN[k][iN]),
+                                 "E_kin_before": float(ekin[k - 1]), "E_kin_after": float(ekin[k])}}
                 if scheme == "rattle":
                     p1, b4 = sgn(float(PN1[iN]), 1e-8 * Pscale)
                     rec["PN1"] = p1
@@ -321,6 +322,9 @@ def run(ctx):
     for rid, clause in rejected.items():
         m = meta[rid]
         key = f"{m['solver']}:{clause[:60].replace(' ', '_')}"
+        if clause.startswith("kinetic energy increased"):
+            # identified by solver, kind of scene and kind of contact (sphere-sphere s.., sphere-plane p..)
+            key = f"{m['solver']}:{m['kind']}:{'sphere-sphere' if str(m['contact']).startswith('s') else 'sphere-plane'}:kinetic_energy_increased_in_a_frictionless_impact"
         ctx.violation(key, f"{m['solver']} scene {m['scene']} ({m['kind']}, dt={m['dt']}, e_N={m['desc']['e_N']}, mu={m['desc']['mu']}) step {m['step']} "
                       f"contact {m['contact']}: {clause}; gap={m.get('gap'):.3e} xi_N={m.get('xi_N'):.3e} P_N={m.get('P_N'):.3e} "
                       f"P_F={m.get('P_F')} xi_F={m.get('xi_F')}", {"record": allrecs[rid - 1], "meta": m})
